@@ -119,6 +119,10 @@ func strftime(t time.Time, cfmt string) string {
 					switch c {
 					case 'w':
 						sc.AppendString(fmt.Sprint(int(t.Weekday())))
+					case 'U': // week of the year, weeks beginning on Sunday
+						sc.AppendString(fmt.Sprintf("%02d", (t.YearDay()-1+7-int(t.Weekday()))/7))
+					case 'W': // week of the year, weeks beginning on Monday
+						sc.AppendString(fmt.Sprintf("%02d", (t.YearDay()-1+7-(int(t.Weekday())+6)%7)/7))
 					default:
 						sc.AppendChar('%')
 						sc.AppendChar(c)
